@@ -329,6 +329,137 @@ Fixpoint cat_slices (items : list (nat * (vec -> vec))) (off : nat) (x : vec) : 
   | [] => []
   | (k, f) :: rest => f (slice off (off + k) x) ++ cat_slices rest (off + k) x
   end.
+
+(* ---------- Kronecker product ---------- *)
+(* r (x) w = [r_1 * w, r_2 * w, ...] *)
+Definition ot (r w : vec) : vec := flat_map (fun a => vscale R a w) r.
+Definition kron (A B : mat) : mat := flat_map (fun ra => map (fun rb => ot ra rb) B) A.
+(* x.reshape(k, n): k chunks of length n *)
+Fixpoint chunks (k n : nat) (x : vec) : list vec :=
+  match k with O => [] | S k' => firstn n x :: chunks k' n (skipn n x) end.
+(* Kronecker._matvec as coded, matmat = column loop:
+     X = x.reshape(k1, k2); Y = Op2.matmat(X.T).T; Z = Op1.matmat(Y); Z.ravel() *)
+Definition kron_ap (k1 k2 l2 l1 : nat) (f1 f2 : vec -> vec) (x : vec) : vec :=
+  concat (transpose R l1 (map f1 (transpose R l2 (map f2 (chunks k1 k2 x))))).
+
+Lemma ot_length r w : length (ot r w) = (length r * length w)%nat.
+Proof. induction r as [|a r IH]; simpl; auto. unfold ot in *; simpl. rewrite app_length, vscale_length, IH; auto. Qed.
+Lemma kron_length A B : length (kron A B) = (length A * length B)%nat.
+Proof. induction A as [|ra A IH]; simpl; auto. unfold kron in *; simpl. rewrite app_length, map_length, IH; auto. Qed.
+Lemma kron_wf n1 n2 A B : wfM R n1 A -> wfM R n2 B -> wfM R (n1 * n2) (kron A B).
+Proof. intros WA WB. induction WA as [|ra A Hra WA IH]; simpl; [constructor|].
+  unfold kron in *; simpl. apply wfM_app; auto. apply Forall_map. eapply Forall_impl; [|exact WB].
+  simpl; intros rb Hrb. rewrite ot_length; congruence. Qed.
+Lemma chunks_length k n x : length (chunks k n x) = k.
+Proof. revert x; induction k; intros x; simpl; auto. Qed.
+Lemma chunks_wf k n x : length x = (k * n)%nat -> wfM R n (chunks k n x).
+Proof. revert x; induction k; intros x H; simpl; constructor.
+  - rewrite firstn_length; simpl in H; lia.
+  - apply IHk. rewrite skipn_length; simpl in H; lia. Qed.
+
+Lemma transpose_map_map {X Y} (f : X -> Y -> R) (L1 : list X) (L2 : list Y) :
+  transpose R (length L2) (map (fun a => map (fun b => f a b) L2) L1) = map (fun b => map (fun a => f a b) L1) L2.
+Proof. induction L1 as [|a L1 IH]; simpl.
+  - induction L2; simpl; auto. f_equal; auto.
+  - rewrite IH. clear IH. induction L2 as [|b L2 IH2]; simpl; auto. f_equal; auto. Qed.
+
+Lemma dotu_ot ra rb k x : length rb = k -> length x = (length ra * k)%nat ->
+  dotu R (ot ra rb) x = dotu R ra (map (dotu R rb) (chunks (length ra) k x)).
+Proof. intros Hk. revert x; induction ra as [|a ra IH]; intros x Hx; simpl; auto.
+  unfold ot in *; simpl. rewrite <- (firstn_skipn k x) at 1.
+  rewrite dotu_app by (rewrite vscale_length, firstn_length; simpl in Hx; lia).
+  rewrite dotu_vscale_l, IH; auto. rewrite skipn_length; simpl in Hx; lia. Qed.
+
+Lemma map_flat_map {X Y Z} (f : Y -> Z) (g : X -> list Y) l : map f (flat_map g l) = flat_map (fun a => map f (g a)) l.
+Proof. induction l; simpl; auto. rewrite map_app, IHl; auto. Qed.
+Lemma flat_map_ext_in {X Y} (f g : X -> list Y) l : (forall a, In a l -> f a = g a) -> flat_map f l = flat_map g l.
+Proof. induction l; simpl; intros H; auto. rewrite H, IHl; auto. Qed.
+
+(* (A (x) B) vec(X) = vec(A X B^T), with the two passes done as the code does *)
+Lemma mv_kron_explicit n1 n2 A B x : wfM R n1 A -> wfM R n2 B -> length x = (n1 * n2)%nat ->
+  mv R (kron A B) x = flat_map (fun ra => map (fun rb => dotu R ra (map (dotu R rb) (chunks n1 n2 x))) B) A.
+Proof. intros WA WB Hx. unfold mv, kron. rewrite map_flat_map. apply flat_map_ext_in. intros ra Hra.
+  rewrite map_map. apply map_ext_in. intros rb Hrb.
+  pose proof (proj1 (Forall_forall _ _) WA ra Hra) as La. pose proof (proj1 (Forall_forall _ _) WB rb Hrb) as Lb.
+  simpl in La, Lb. rewrite <- La. apply dotu_ot; auto. congruence. Qed.
+
+Lemma kron_ap_explicit n1 n2 A B x : wfM R n1 A -> wfM R n2 B -> length x = (n1 * n2)%nat ->
+  kron_ap n1 n2 (length B) (length A) (mv R A) (mv R B) x =
+  flat_map (fun ra => map (fun rb => dotu R ra (map (dotu R rb) (chunks n1 n2 x))) B) A.
+Proof. intros WA WB Hx. unfold kron_ap. set (X := chunks n1 n2 x).
+  unfold mv at 2. rewrite (transpose_map_map (fun xr rb => dotu R rb xr) X B).
+  rewrite map_map. unfold mv. rewrite (transpose_map_map (fun rb ra => dotu R ra (map (fun xr => dotu R rb xr) X)) B A).
+  rewrite <- flat_map_concat_map. apply flat_map_ext_in. intros ra _. reflexivity. Qed.
+
+Lemma mv_kron n1 n2 A B x : wfM R n1 A -> wfM R n2 B -> length x = (n1 * n2)%nat ->
+  mv R (kron A B) x = kron_ap n1 n2 (length B) (length A) (mv R A) (mv R B) x.
+Proof. intros. rewrite (mv_kron_explicit n1 n2), (kron_ap_explicit n1 n2); auto. Qed.
+
+Lemma kron_ap_ext k1 k2 l2 l1 f1 f2 g1 g2 x : length x = (k1 * k2)%nat ->
+  (forall u, length u = k2 -> f2 u = g2 u) -> (forall u, length u = l2 -> length (g2 u) = l2) ->
+  (forall u, length u = k1 -> f1 u = g1 u) ->
+  (forall u, length u = k2 -> length (g2 u) = l2) ->
+  kron_ap k1 k2 l2 l1 f1 f2 x = kron_ap k1 k2 l2 l1 g1 g2 x.
+Proof. intros Hx E2 _ E1 L2. unfold kron_ap. f_equal. f_equal.
+  assert (EQ : map f2 (chunks k1 k2 x) = map g2 (chunks k1 k2 x)).
+  { apply map_ext_in. intros u Hu. apply E2. eapply Forall_forall in Hu; [|apply chunks_wf; eauto]. auto. }
+  rewrite EQ. apply map_ext_in. intros u Hu. apply E1.
+  assert (W : wfM R (length (map g2 (chunks k1 k2 x))) (transpose R l2 (map g2 (chunks k1 k2 x)))) by apply transpose_wf.
+  eapply Forall_forall in W; eauto. simpl in W. rewrite W, map_length, chunks_length; auto. Qed.
+
+(* bilinearity of (x) in its second argument *)
+Lemma ot_vadd r u v : length u = length v -> ot r (vadd R u v) = vadd R (ot r u) (ot r v).
+Proof. intros H. induction r as [|a r IH]; simpl; auto. unfold ot in *; simpl.
+  rewrite vscale_vadd, IH. symmetry; apply vadd_app. rewrite !vscale_length; auto. Qed.
+Lemma ot_vscale r b u : ot r (vscale R b u) = vscale R b (ot r u).
+Proof. induction r as [|a r IH]; simpl; auto. unfold ot in *; simpl. rewrite vscale_app, IH. f_equal.
+  rewrite !vscale_vscale. f_equal. ring. Qed.
+Lemma ot_zeros r n : ot r (zeros R n) = zeros R (length r * n).
+Proof. induction r as [|a r IH]; simpl; auto. unfold ot in *; simpl. rewrite IH, vscale_zeros. symmetry; apply zeros_app. Qed.
+Lemma mvT_map_ot n2 ra B y : wfM R n2 B ->
+  mvT R (length ra * n2) (map (fun rb => ot ra rb) B) y = ot ra (mvT R n2 B y).
+Proof. revert y; induction B as [|rb B IH]; intros [|b y] W; simpl; try (symmetry; apply ot_zeros).
+  inversion W; subst. rewrite IH by auto. rewrite ot_vadd, ot_vscale; auto.
+  rewrite vscale_length, mvT_length; auto. Qed.
+Lemma mv_flat_map_mscale ra B' y : mv R (flat_map (fun a => map (vscale R a) B') ra) y = ot ra (mv R B' y).
+Proof. induction ra as [|a ra IH]; simpl; auto. unfold ot in *; simpl. rewrite mv_app, IH. f_equal.
+  apply (mv_mscale a B' y). Qed.
+Lemma hcat_app A1 A2 B1 B2 : length A1 = length B1 -> hcat (A1 ++ A2) (B1 ++ B2) = hcat A1 B1 ++ hcat A2 B2.
+Proof. revert B1; induction A1 as [|r A1 IH]; intros [|s B1] H; simpl in *; try discriminate; auto.
+  unfold hcat in *; simpl. rewrite IH; auto. Qed.
+Lemma kron_cons_cols ra T B' : length ra = length T ->
+  kron (map2 cons ra T) B' = hcat (flat_map (fun a => map (vscale R a) B') ra) (kron T B').
+Proof. revert T; induction ra as [|a ra IH]; intros [|t T] H; simpl in *; try discriminate; auto.
+  unfold kron in *; simpl. rewrite hcat_app by (rewrite !map_length; auto). rewrite <- IH by lia. f_equal.
+  unfold hcat. clear. induction B'; simpl; auto. f_equal; auto. Qed.
+Lemma mv_empty_rows (M : mat) y : Forall (fun r => r = []) M -> mv R M y = zeros R (length M).
+Proof. induction 1; simpl; auto. subst. unfold zeros in *; simpl. f_equal; auto. Qed.
+
+(* (A (x) B)^T y = (A^T (x) B^T) y *)
+Lemma mvT_kron n1 n2 A B y : wfM R n1 A -> wfM R n2 B -> length y = (length A * length B)%nat ->
+  mvT R (n1 * n2) (kron A B) y = mv R (kron (transpose R n1 A) (transpose R n2 B)) y.
+Proof. intros WA WB. revert y. induction A as [|ra A IH]; intros y Hy.
+  - simpl. symmetry. rewrite mv_empty_rows.
+    + rewrite kron_length, repeat_length, transpose_length; auto.
+    + unfold kron. apply Forall_forall. intros r Hr. apply in_flat_map in Hr. destruct Hr as (e & He & Hr).
+      apply repeat_spec in He; subst. apply in_map_iff in Hr. destruct Hr as (? & <- & _). reflexivity.
+  - inversion WA; subst. simpl transpose. rewrite kron_cons_cols by (rewrite transpose_length; auto).
+    unfold kron at 1; simpl. fold (kron A B).
+    assert (W1 : wfM R (length ra * n2) (map (fun rb => ot ra rb) B)).
+    { apply Forall_map. eapply Forall_impl; [|exact WB]. simpl; intros rb Hrb. rewrite ot_length; congruence. }
+    rewrite mvT_app; auto; [| apply kron_wf; auto | rewrite map_length, kron_length; simpl in Hy; lia].
+    rewrite map_length.
+    rewrite (mv_hcat (length B)).
+    + f_equal.
+      * rewrite mvT_map_ot by auto. rewrite mv_flat_map_mscale. f_equal.
+        symmetry. apply mv_transpose; auto. rewrite firstn_length; simpl in Hy; lia.
+      * apply IH; auto. rewrite skipn_length; simpl in Hy; lia.
+    + apply Forall_forall. intros r Hr. apply in_flat_map in Hr. destruct Hr as (a & _ & Hr).
+      apply in_map_iff in Hr. destruct Hr as (t & <- & Ht). rewrite vscale_length.
+      pose proof (transpose_wf n2 B) as Q. eapply Forall_forall in Q; eauto.
+    + rewrite kron_length, transpose_length, transpose_length; auto.
+      clear -WB. induction ra; simpl; auto. rewrite app_length, map_length, IHra, transpose_length; auto.
+Qed.
 End MatAlgR.
 
 
@@ -634,4 +765,150 @@ Proof. intros HA ND B. pose proof HA as (WA & LA & FA & GA). apply repr_intro.
     unfold dot. rewrite vconj_scatter. apply dotu_gather_scatter; auto.
     + eapply repr_len_g; eauto.
     + rewrite vconj_length; auto. Qed.
+
+(* ---------- Kronecker ---------- *)
+Lemma vconj_ot r w : vconj S (ot S r w) = ot S (vconj S r) (vconj S w).
+Proof. induction r as [|a r IH]; simpl; auto. unfold ot in *; simpl. rewrite vconj_app, vconj_vscale, IH; auto. Qed.
+Lemma mconj_kron (A B : mat) : mconj S (kron S A B) = kron S (mconj S A) (mconj S B).
+Proof. induction A as [|ra A IH]; simpl; auto. unfold kron in *; simpl. rewrite mconj_app, IH. f_equal.
+  unfold mconj. rewrite !map_map. apply map_ext. intros; apply vconj_ot. Qed.
+
+Lemma repr_kron m1 n1 m2 n2 A B fa ga fb gb : repr m1 n1 A fa ga -> repr m2 n2 B fb gb ->
+  repr (m1 * m2) (n1 * n2) (kron S A B) (kron_ap S n1 n2 m2 m1 fa fb) (kron_ap S m1 m2 n2 n1 ga gb).
+Proof. intros HA HB. pose proof HA as (WA & LA & FA & GA). pose proof HB as (WB & LB & FB & GB).
+  repeat split.
+  - apply kron_wf; auto.
+  - rewrite kron_length; congruence.
+  - intros x Hx. rewrite (mv_kron S n1 n2) by auto. rewrite LA, LB.
+    apply kron_ap_ext; auto; intros; rewrite ?mv_length; auto.
+  - intros y Hy. unfold mvH. rewrite mconj_kron.
+    rewrite (mvT_kron S n1 n2) by (auto using wfM_mconj; rewrite !mconj_length; congruence).
+    fold (ctranspose S n1 A). fold (ctranspose S n2 B).
+    rewrite (mv_kron S m1 m2); [| rewrite <- LA; apply ctranspose_wf | rewrite <- LB; apply ctranspose_wf | auto].
+    rewrite !ctranspose_length by auto.
+    apply kron_ap_ext; auto; intros.
+    + rewrite GB by auto. symmetry; apply mv_ctranspose; auto; congruence.
+    + rewrite mv_length, ctranspose_length; auto.
+    + rewrite GA by auto. symmetry; apply mv_ctranspose; auto; congruence.
+    + rewrite mv_length, ctranspose_length; auto.
+Qed.
 End MatAlgS.
+
+(* ---------- real / imaginary parts (for toreal / toimag) ---------- *)
+Definition isreal (S : StarRing) (a : S) : Prop := conj S a = a.
+Record ReIm (S : StarRing) := {
+  re : S -> S; im : S -> S;
+  re_real : forall a, isreal S (re a);
+  im_real : forall a, isreal S (im a);
+  re_add : forall a b, re (radd S a b) = radd S (re a) (re b);
+  im_add : forall a b, im (radd S a b) = radd S (im a) (im b);
+  re_mulr : forall a b, isreal S b -> re (rmul S a b) = rmul S (re a) b;
+  im_mulr : forall a b, isreal S b -> im (rmul S a b) = rmul S (im a) b;
+  re_of_real : forall a, isreal S a -> re a = a;
+  im_of_real : forall a, isreal S a -> im a = r0 S;
+  re_conj : forall a, re (conj S a) = re a;
+  im_conj : forall a, im (conj S a) = ropp S (im a) }.
+Arguments re {S} r a. Arguments im {S} r a.
+
+Section ReImS.
+Variable S : StarRing.
+Variable RI : ReIm S.
+Add Ring RrRI : (rth S).
+Notation vec := (list S).
+Notation mat := (list (list S)).
+
+Definition vreal (x : vec) : Prop := vconj S x = x.
+Definition vre (x : vec) : vec := map (re RI) x.
+Definition vim (x : vec) : vec := map (im RI) x.
+Definition mre (M : mat) : mat := map vre M.
+Definition mim (M : mat) : mat := map vim M.
+
+Lemma isreal_zero : isreal S 0.
+Proof. apply conj_zero. Qed.
+Lemma isreal_m1 : isreal S (- (1)).
+Proof. unfold isreal. rewrite conj_opp, conj_one; auto. Qed.
+Lemma vreal_cons a x : vreal (a :: x) <-> isreal S a /\ vreal x.
+Proof. unfold vreal, isreal; simpl; split; [intros H; inversion H; split; congruence | intros [-> ->]; auto]. Qed.
+Lemma vreal_nil : vreal [].
+Proof. reflexivity. Qed.
+Lemma vreal_vre x : vreal (vre x).
+Proof. induction x; simpl; [reflexivity | apply vreal_cons; split; auto; apply re_real]. Qed.
+Lemma vreal_vim x : vreal (vim x).
+Proof. induction x; simpl; [reflexivity | apply vreal_cons; split; auto; apply im_real]. Qed.
+Lemma vreal_vadd x y : vreal x -> vreal y -> vreal (vadd S x y).
+Proof. unfold vreal; intros Hx Hy. rewrite vconj_vadd, Hx, Hy; auto. Qed.
+Lemma vreal_vscale a x : isreal S a -> vreal x -> vreal (vscale S a x).
+Proof. unfold vreal, isreal; intros Ha Hx. rewrite vconj_vscale, Ha, Hx; auto. Qed.
+Lemma vreal_vneg x : vreal x -> vreal (vneg S x).
+Proof. intros; rewrite vneg_vscale; apply vreal_vscale; auto using isreal_m1. Qed.
+Lemma vreal_vconj x : vreal x -> vreal (vconj S x).
+Proof. unfold vreal; intros H; rewrite !H; auto. Qed.
+Lemma vreal_zeros n : vreal (zeros S n).
+Proof. apply vconj_zeros. Qed.
+Lemma vreal_app x y : vreal x -> vreal y -> vreal (x ++ y).
+Proof. unfold vreal; intros Hx Hy. rewrite vconj_app, Hx, Hy; auto. Qed.
+Lemma vreal_firstn k x : vreal x -> vreal (firstn k x).
+Proof. unfold vreal, vconj; intros H. rewrite <- firstn_map, H; auto. Qed.
+Lemma vreal_skipn k x : vreal x -> vreal (skipn k x).
+Proof. unfold vreal, vconj; intros H. rewrite <- skipn_map, H; auto. Qed.
+Lemma vreal_mv M x : mconj S M = M -> vreal x -> vreal (mv S M x).
+Proof. unfold vreal; intros HM Hx. rewrite vconj_mv, HM, Hx; auto. Qed.
+Lemma vreal_mvH n M x : wfM S n M -> mconj S M = M -> vreal x -> vreal (mvH S n M x).
+Proof. unfold vreal, mvH; intros W HM Hx. rewrite vconj_mvT by (rewrite HM; auto). rewrite !HM, Hx; auto. Qed.
+
+Lemma re_zero : re RI 0 = 0.
+Proof. apply re_of_real, isreal_zero. Qed.
+Lemma im_zero : im RI 0 = 0.
+Proof. apply im_of_real, isreal_zero. Qed.
+Lemma re_dotu r x : vreal x -> re RI (dotu S r x) = dotu S (vre r) x.
+Proof. revert x; induction r as [|a r IH]; intros [|b x] H; simpl; try apply re_zero.
+  apply vreal_cons in H; destruct H. rewrite re_add, re_mulr, IH; auto. Qed.
+Lemma im_dotu r x : vreal x -> im RI (dotu S r x) = dotu S (vim r) x.
+Proof. revert x; induction r as [|a r IH]; intros [|b x] H; simpl; try apply im_zero.
+  apply vreal_cons in H; destruct H. rewrite im_add, im_mulr, IH; auto. Qed.
+Lemma vre_mv M x : vreal x -> vre (mv S M x) = mv S (mre M) x.
+Proof. intros H. unfold vre, mv, mre. rewrite !map_map. apply map_ext; intros; apply re_dotu; auto. Qed.
+Lemma vim_mv M x : vreal x -> vim (mv S M x) = mv S (mim M) x.
+Proof. intros H. unfold vim, mv, mim. rewrite !map_map. apply map_ext; intros; apply im_dotu; auto. Qed.
+
+Lemma vre_vadd u v : vre (vadd S u v) = vadd S (vre u) (vre v).
+Proof. revert v; induction u as [|a u IH]; intros [|b v]; simpl; auto. unfold vadd, vre in *; simpl. rewrite re_add, IH; auto. Qed.
+Lemma vim_vadd u v : vim (vadd S u v) = vadd S (vim u) (vim v).
+Proof. revert v; induction u as [|a u IH]; intros [|b v]; simpl; auto. unfold vadd, vim in *; simpl. rewrite im_add, IH; auto. Qed.
+Lemma vre_vscale b u : isreal S b -> vre (vscale S b u) = vscale S b (vre u).
+Proof. intros H. unfold vre, vscale. rewrite !map_map. apply map_ext. intros a.
+  replace (b * a) with (a * b) by ring. rewrite re_mulr by auto. ring. Qed.
+Lemma vim_vscale b u : isreal S b -> vim (vscale S b u) = vscale S b (vim u).
+Proof. intros H. unfold vim, vscale. rewrite !map_map. apply map_ext. intros a.
+  replace (b * a) with (a * b) by ring. rewrite im_mulr by auto. ring. Qed.
+Lemma vre_zeros n : vre (zeros S n) = zeros S n.
+Proof. unfold vre, zeros. induction n; simpl; auto. rewrite re_zero, IHn; auto. Qed.
+Lemma vim_zeros n : vim (zeros S n) = zeros S n.
+Proof. unfold vim, zeros. induction n; simpl; auto. rewrite im_zero, IHn; auto. Qed.
+Lemma vre_vconj u : vre (vconj S u) = vre u.
+Proof. unfold vre, vconj. rewrite map_map. apply map_ext; intros; apply re_conj. Qed.
+Lemma vim_vconj u : vim (vconj S u) = vneg S (vim u).
+Proof. unfold vim, vconj, vneg. rewrite !map_map. apply map_ext; intros; apply im_conj. Qed.
+Lemma mconj_mre M : mconj S (mre M) = mre M.
+Proof. unfold mconj, mre. rewrite map_map. apply map_ext; intros; apply vreal_vre. Qed.
+Lemma mconj_mim M : mconj S (mim M) = mim M.
+Proof. unfold mconj, mim. rewrite map_map. apply map_ext; intros; apply vreal_vim. Qed.
+Lemma mre_wf n M : wfM S n M -> wfM S n (mre M).
+Proof. intros W. apply Forall_map. eapply Forall_impl; [|exact W]. simpl; intros; unfold vre; rewrite map_length; auto. Qed.
+Lemma mim_wf n M : wfM S n M -> wfM S n (mim M).
+Proof. intros W. apply Forall_map. eapply Forall_impl; [|exact W]. simpl; intros; unfold vim; rewrite map_length; auto. Qed.
+
+(* Re(M^H y) = Re(M)^T y and -Im(M^H y) = Im(M)^T y for real y *)
+Lemma vre_mvH n M y : vreal y -> vre (mvH S n M y) = mvH S n (mre M) y.
+Proof. unfold mvH. rewrite mconj_mre. revert y. induction M as [|r M IH]; intros [|b y] H; simpl; try apply vre_zeros.
+  apply vreal_cons in H; destruct H. rewrite vre_vadd, vre_vscale, vre_vconj, IH; auto. Qed.
+Lemma vneg_vadd u v : vneg S (vadd S u v) = vadd S (vneg S u) (vneg S v).
+Proof. rewrite !vneg_vscale. apply vscale_vadd. Qed.
+Lemma vneg_zeros n : vneg S (zeros S n) = zeros S n.
+Proof. rewrite vneg_vscale. apply vscale_zeros. Qed.
+Lemma vnim_mvH n M y : vreal y -> vneg S (vim (mvH S n M y)) = mvH S n (mim M) y.
+Proof. unfold mvH. rewrite mconj_mim. revert y. induction M as [|r M IH]; intros [|b y] H; simpl;
+    try (rewrite vim_zeros; apply vneg_zeros).
+  apply vreal_cons in H; destruct H. rewrite vim_vadd, vneg_vadd, IH by auto. f_equal.
+  rewrite vim_vscale, vim_vconj by auto. rewrite !vneg_vscale, !vscale_vscale. f_equal. ring. Qed.
+End ReImS.
